@@ -246,6 +246,19 @@ _UNARY_OPERATORS = unary_arithmetic_operators | set(date_part_operators) | {
 }
 # The operators that take any number of arguments: one that is not an array may be given bare.
 _VARIADIC_OPERATORS = {'$add', '$and', '$concat', '$multiply', '$or', '$setUnion'}
+# The operators that take a given number of arguments: the least and the most (None: no limit).
+# $cond takes its three arguments as a list, or as a document of if / then / else.
+_OPERATOR_ARITY = dict(
+    [(operator, (2, 2)) for operator in comparison_operators] +
+    [(operator, (2, 2)) for operator in binary_arithmetic_operators],
+    **{
+        '$arrayElemAt': (2, 2),
+        '$cond': (3, 3),
+        '$ifNull': (2, None),
+        '$in': (2, 2),
+        '$setEquals': (2, None),
+        '$split': (2, 2),
+    })
 
 
 def _validate_variable_name(name):
@@ -266,6 +279,20 @@ def _validate_variable_name(name):
         raise OperationFailure(
             "'%s' contains an invalid character for a variable name: '%s'"
             % (name, invalid.group()))
+
+
+def _argument_list(operator, value):
+    """The arguments of an operator of _OPERATOR_ARITY: an operand that is no list is one."""
+    arguments = list(value) if isinstance(value, (list, tuple)) else [value]
+    least, most = _OPERATOR_ARITY[operator]
+    if len(arguments) < least and most is None:
+        raise OperationFailure(
+            '%s needs at least two arguments, had: %d' % (operator, len(arguments)))
+    if len(arguments) < least or most is not None and len(arguments) > most:
+        raise OperationFailure(
+            'Expression %s takes exactly %d arguments. %d were passed in.'
+            % (operator, least, len(arguments)))
+    return arguments
 
 
 class _Parser(object):
@@ -298,6 +325,8 @@ class _Parser(object):
                 v = v[0]
             if k in _VARIADIC_OPERATORS and not isinstance(v, (list, tuple)):
                 v = [v]
+            if k in _OPERATOR_ARITY and not (k == '$cond' and isinstance(v, dict)):
+                v = _argument_list(k, v)
             if k in arithmetic_operators:
                 return self._handle_arithmetic_operator(k, v)
             if k in project_operators:
@@ -431,13 +460,6 @@ class _Parser(object):
                 return math.sqrt(number)
 
         if operator in binary_arithmetic_operators:
-            if not isinstance(values, (tuple, list)):
-                raise OperationFailure(
-                    "Parameter to %s must evaluate to a list, got '%s'" %
-                    (operator, type(values)))
-
-            if len(values) != 2:
-                raise OperationFailure('%s must have only 2 parameters' % operator)
             number_0, number_1 = self.parse_many(values)
             if number_0 is None or number_1 is None:
                 return None
@@ -569,7 +591,6 @@ class _Parser(object):
                                   'in Mongomock.' % operator)
 
     def _handle_comparison_operator(self, operator, values):
-        assert len(values) == 2, 'Comparison requires two expressions'
         a = self._parse_or_nothing(values[0])
         b = self._parse_or_nothing(values[1])
         if operator in filtering.SORTING_OPERATOR_MAP and (a is NOTHING or b is NOTHING):
@@ -601,8 +622,6 @@ class _Parser(object):
                         '$concat only supports strings, not {}'.format(type(parsed_item)))
             return None if None in parsed_list else ''.join(parsed_list)
         if operator == '$split':
-            if len(values) != 2:
-                raise OperationFailure('split must have 2 items')
             try:
                 string = self.parse(values[0])
                 delimiter = self.parse(values[1])
@@ -1094,9 +1113,6 @@ class _Parser(object):
 
     def _handle_conditional_operator(self, operator, values):
         if operator == '$ifNull':
-            if isinstance(values, (list, tuple)) and len(values) < 2:
-                raise OperationFailure(
-                    '$ifNull needs at least two arguments, had: %d' % len(values))
             fields = values[:-1]
             if len(fields) > 1 and version.parse(mongomock.SERVER_VERSION) <= version.parse('4.4'):
                 raise OperationFailure(
